@@ -383,6 +383,47 @@ func VH_C19_Num() {
 	symAssert(out == strconv.Itoa(a)+"|"+strconv.Itoa(i)+"|"+nf(",")+"|"+nf(" "), "abs-round-number_format")
 }
 
+// VH_C19_RoundPrec: round with a precision and a method on integers from the context agrees with
+// exact integer arithmetic (tens, hundreds: floor / ceil / half away from zero; a non-negative
+// precision leaves an integer as it is). A result of zero may print as "-0" (the float sign of a
+// negative input rounded to zero, as in PHP); it is read as 0.
+func VH_C19_RoundPrec() {
+	i := symInt()
+	if symBool() {
+		symAssume(i >= -140 && i <= 140)
+	} else {
+		i = []int{1250, -1250, 1350, -1350, 999, -999, 1001, -1001, 12345, -54321, 5, -5, 50, -50, 9007199254740, -9007199254740}[symChoice(16)]
+	}
+	pi := symChoice(4)
+	p := []int{-1, -2, 1, -3}[pi]
+	unit := []int{10, 100, 1, 1000}[pi]
+	out, err := vhR("{{ i|round(p) }}|{{ i|round(p, 'common') }}|{{ i|round(p, 'ceil') }}|{{ i|round(p, 'floor') }}", map[string]interface{}{"i": i, "p": p})
+	symCover("rendered")
+	symAssert(err == nil, "no-error")
+	fdiv := func(a, b int) int {
+		q := a / b
+		if a%b != 0 && (a < 0) != (b < 0) {
+			q--
+		}
+		return q
+	}
+	fl, ce := fdiv(i, unit)*unit, -fdiv(-i, unit)*unit
+	a := i
+	if a < 0 {
+		a = -a
+	}
+	co := (a + unit/2) / unit * unit
+	if i < 0 {
+		co = -co
+	}
+	if p > 0 {
+		fl, ce, co = i, i, i
+	}
+	out = "|" + out + "|"
+	out = vhReplace(vhReplace(out, "|-0|", "|0|"), "|-0|", "|0|")
+	symAssert(out == "|"+strconv.Itoa(co)+"|"+strconv.Itoa(co)+"|"+strconv.Itoa(ce)+"|"+strconv.Itoa(fl)+"|", "round-precision-exact-on-integers")
+}
+
 // ---- C19.split: what split returns is made of the input --------------------------------------------
 var vhC19Runes = []string{"a", "b", "\xc3\xa9", ",", "-", "^", "]", " "}
 var vhC19Seps = []string{",", "\xc3\xa9", "\xc3\xa9,", ",\xc3\xa9", ", ", "^-", "]a", ",-\xc3\xa9", "a-b"}
